@@ -171,7 +171,11 @@ enum { NP = 0x100, NP2 = 0x1200, LBUF = 0x2400, RES = 0x400, STAT = 0x500 };
 static const struct { int sel; const char* s; } NAMES[] = {
     {0, "a"}, {0, "b"}, {0, "d"}, {0, "d/a"}, {0, "missing/x"}, {0, "@/a"}, {0, "#"}, {1, "a"}, {1, "n"},
     /* a trailing separator: only a directory (or a link to one) may be named like that */
-    {0, "a/"}, {0, "b/"}};
+    {0, "a/"}, {0, "b/"},
+    /* content classes used for single operations only (index >= 11): dot components, doubled separators, the empty string and the root, bytes
+       that mean something to shells, C strings or UTF-8 decoders */
+    {0, "./a"}, {0, "d/../a"}, {0, "d//a"}, {0, "d/./a"}, {0, "a/."}, {0, "d/."}, {0, "d/.."}, {0, "."}, {0, ".."}, {0, "/"}, {0, "d/"}, {0, "d//"},
+    {0, "a b"}, {0, "-x"}, {0, "a\\b"}, {0, "*"}, {0, "\xc3\xa9"}, {0, "\xff\xfe"}, {0, "%s%n"}, {0, "d/a/"}, {0, "./"}, {0, "d/../d/a"}, {1, "../a"}, {1, "."}, {1, "./a"}};
 
 static void nameFor(int idx, const char* base, char* guest, char* host, size_t cap) {
     const char* s = NAMES[idx].s;
